@@ -81,6 +81,17 @@ _add(_c("lsn_nonorth_y2", "LSN", [2, 2], [6, 8, 6], 1, "lsn", dict(orthogonal=Fa
 _add(_c("udn_orth_y2", "UDN", [2, 1, 2], [6, 6, 6, 6, 6, 6], 1, "udn", dict(orthogonal=True, **DN), fpol="quad"))
 C10_PAIRS = [("lsn_orth", "lsn_orth_y2"), ("cdn_orth", "cdn_orth_y2"), ("lsn_nonorth", "lsn_nonorth_y2"), ("udn_orth", "udn_orth_y2")]
 
+# ---- wall variants for C11: slanted targets, anticlockwise input (the default lists are clockwise), many vertices, guard counts 0..2
+_add(_c("w_lsn_nonorth_sl", "LSN", [2, 2], [3, 4, 3], 1, "lsn", dict(orthogonal=False), fpol="quad", wall="slanted"))
+_add(_c("w_lsn_nonorth_sl_acw_g2", "LSN", [2, 2], [3, 4, 3], 2, "lsn", dict(orthogonal=False), fpol="quad", wall="slanted", wall_clockwise=True))
+_add(_c("w_lsn_nonorth_many_g0", "LSN", [2, 2], [3, 4, 3], 0, "lsn", dict(orthogonal=False), fpol="quad", wall="many"))
+_add(_c("w_usn_nonorth_sl", "USN", [2, 2], [3, 4, 3], 1, "lsn", dict(orthogonal=False), fpol="quad", wall="slanted", mirror=True))
+_add(_c("w_cdn_nonorth_sl", "CDN", [2, 2], [4, 4, 4, 4, 4, 4], 1, "cdn", dict(orthogonal=False, **DN), fpol="quad", wall="slanted"))
+_add(_c("w_lsn_orth_many_acw", "LSN", [2, 2], [3, 4, 3], 1, "lsn", dict(orthogonal=True), fpol="quad", wall="many", wall_clockwise=True))
+_add(_c("w_cdn_orth_sl_g2", "CDN", [2, 2], [3, 3, 3, 3, 3, 3], 2, "cdn", dict(orthogonal=True, **DN), fpol="quad", wall="slanted"))
+C11_WALLS_QUICK = ["w_lsn_nonorth_sl", "w_lsn_nonorth_sl_acw_g2", "w_lsn_nonorth_many_g0", "w_usn_nonorth_sl", "w_lsn_orth_many_acw"]
+C11_WALLS = C11_WALLS_QUICK + ["w_cdn_nonorth_sl", "w_cdn_orth_sl_g2"]
+
 # ---- envelope configurations (C12): in and around the supported envelope; refusal is an accepted outcome, a hang or a bad file is not
 _add(_c("env_ny1", "LSN", [2, 2], [1, 2, 1], 1, "lsn", dict(orthogonal=True), fpol="quad"))
 _add(_c("env_g4", "LSN", [2, 2], [3, 4, 3], 4, "lsn", dict(orthogonal=True), fpol="quad"))
